@@ -71,6 +71,10 @@ pub enum ConnectSpec {
     DelayMs(u32),
 }
 
+fn connect_ok() -> ConnectSpec {
+    ConnectSpec::Ok
+}
+
 #[derive(Clone, Debug, PartialEq, Serialize, Deserialize)]
 pub struct ClientPlan {
     pub cfg: CfgSpec,
@@ -79,8 +83,10 @@ pub struct ClientPlan {
     pub init: ConfigureOutcome,
     pub ops: Vec<OpSpec>,
     pub faults: Vec<FaultSpec>,
-    /// Per connect attempt (in order); attempts beyond the list succeed.
+    /// Per connect attempt (in order); attempts beyond the list behave as `connects_then`.
     pub connects: Vec<ConnectSpec>,
+    #[serde(default = "connect_ok")]
+    pub connects_then: ConnectSpec,
     pub sched: Sched,
     /// Schedule noise: with `delay_pct` % the terminal emits a frame up to
     /// `max_delay_ms` late (strictly below every client timeout).
@@ -101,11 +107,14 @@ impl ClientPlan {
                 bmp_reversed: false,
                 status_seed: 7,
                 rich_status: false,
+                dead_from_conn: None,
+                dead_point: 1,
             },
             init: ConfigureOutcome::plain(),
             ops,
             faults: vec![],
             connects: vec![],
+            connects_then: ConnectSpec::Ok,
             sched: Sched::whole(),
             max_delay_ms: 0,
             delay_pct: 0,
@@ -270,7 +279,7 @@ pub fn execute(plan: &ClientPlan) -> ClientRun {
             let mut w = world.lock().unwrap();
             let attempt = w.attempts;
             w.attempts += 1;
-            let spec = plan_c.connects.get(attempt as usize).copied().unwrap_or(ConnectSpec::Ok);
+            let spec = plan_c.connects.get(attempt as usize).copied().unwrap_or(plan_c.connects_then);
             let seq = log.lock().unwrap().entries.len();
             w.connect_log.push((seq, spec));
             log.lock().unwrap().note(format!("connect attempt {attempt}: {:?}", spec));
@@ -308,16 +317,63 @@ pub fn execute(plan: &ClientPlan) -> ClientRun {
         }));
     }
 
-    let config = Config {
-        terminal_id: plan.cfg.terminal_id.clone(),
-        feig_serial: plan.cfg.serial.clone(),
-        ip_address: Ipv4Addr::new(192, 168, 0, 59),
-        feig_config: FeigConfig {
+    // The terminal configuration goes through the crate's own JSON deserializer whenever the
+    // currency has an ISO 4217 name (independent table: SEK 752, GBP 826, EUR 978), so that the
+    // name -> number mapping is part of what runs.
+    let iso_name = match plan.cfg.currency {
+        752 => Some("SEK"),
+        826 => Some("GBP"),
+        978 => Some("EUR"),
+        _ => None,
+    };
+    let feig_config = match iso_name {
+        Some(name) => {
+            let json = format!(
+                "{{\"currency\": \"{}\", \"pre_authorization_amount\": {}, \"read_card_timeout\": {}, \"password\": {}}}",
+                name, plan.cfg.pre_auth, plan.cfg.read_card_timeout, plan.cfg.password
+            );
+            match serde_json::from_str::<FeigConfig>(&json) {
+                Ok(c) => c,
+                Err(e) => {
+                    // the crate refuses a configuration it documents: reported as a failed start
+                    verif_hook::uninstall();
+                    return ClientRun {
+                        ops: vec![OpRecord {
+                            index: -1,
+                            name: "new",
+                            result: OpResult::Err {
+                                kind: ErrKind::Other,
+                                text: format!("FeigConfig rejected {json}: {e}"),
+                                debug: String::new(),
+                            },
+                            log_from: 0,
+                            log_to: 0,
+                            t_from_ms: 0,
+                            t_to_ms: 0,
+                            ledger: Default::default(),
+                        }],
+                        log,
+                        pt,
+                        conns: vec![],
+                        connect_attempts: 0,
+                        connect_log: vec![],
+                        aborted: true,
+                    };
+                }
+            }
+        }
+        None => FeigConfig {
             currency: plan.cfg.currency as usize,
             pre_authorization_amount: plan.cfg.pre_auth as usize,
             read_card_timeout: plan.cfg.read_card_timeout,
             password: plan.cfg.password as usize,
         },
+    };
+    let config = Config {
+        terminal_id: plan.cfg.terminal_id.clone(),
+        feig_serial: plan.cfg.serial.clone(),
+        ip_address: Ipv4Addr::new(192, 168, 0, 59),
+        feig_config,
         transactions_max_num: plan.cfg.max_tx as usize,
     };
 
@@ -383,6 +439,8 @@ pub fn execute(plan: &ClientPlan) -> ClientRun {
                     let mut p = pt.lock().unwrap();
                     p.q = OutcomeQueues::default();
                     p.last_card = None;
+                    p.sticky_res.clear();
+                    p.sticky_rev.clear();
                     match op {
                         OpSpec::Begin { res, .. } => p.q.reservation.push_back(res.clone()),
                         OpSpec::Commit { rev, cleanup, .. } => {
